@@ -429,7 +429,8 @@ def correspondence(ctx):
             toks.append(o[0])
             if len(o) > 1:
                 toks.append(_utok(o[1]))
-        return 'coll %s %s %s %s' % (c[1], _utok(c[2]), _vals(c[3]), ' '.join(toks))
+        return 'coll %s %s %s %s %s' % ('1' if c[0].endswith('Immutable') else '0', c[1], _utok(c[2]),
+                                        _vals(c[3]), ' '.join(toks))
 
     def impl_coll(c):
         try:
@@ -497,7 +498,8 @@ def make_collection(cls, tname, unit, values):
 
 
 def state(coll):
-    return ['T:' + type(coll.header.data_type).__name__, _utok(coll.header.unit)] + [v for v in coll.values]
+    return ['I:1' if type(coll).__name__.endswith('Immutable') else 'I:0',
+            'T:' + type(coll.header.data_type).__name__, _utok(coll.header.unit)] + [v for v in coll.values]
 
 
 def apply_op(coll, o):
@@ -775,6 +777,22 @@ def _check_coll(inst, root, inp, sig):
     for k, o in enumerate(inp['ops']):
         before = (coll.header.unit, list(coll.values), type(coll.header.data_type).__name__)
         m0 = meaning(coll)
+        if cls.endswith('Immutable') and o[0].startswith('c'):
+            # in-place conversion of an immutable collection: must be refused and change nothing
+            try:
+                apply_op(coll, o)
+                got = 'no exception'
+            except AttributeError:
+                got = None
+            except Exception as e:
+                got = repr(e)
+            if got is not None:
+                return {'required': 'convert_* on an immutable collection raises AttributeError', 'observed': got,
+                        'sig': dict(sig, fact='immutable-convert', op=o[0])}
+            if (coll.header.unit, list(coll.values), type(coll.header.data_type).__name__) != before:
+                return {'required': 'a refused conversion leaves values, unit and data type alone',
+                        'observed': state(coll), 'sig': dict(sig, fact='immutable-changed', op=o[0])}
+            continue
         try:
             res = apply_op(coll, o)
             err = None
